@@ -100,8 +100,8 @@ theorem end_to_end_recompute (f : StatsFile) (lk : Lookup) (Q : List Gene) (rp :
         (∀ x ∈ cells, ∀ (j : Nat) (g : Gene), names[j]? = some g →
           ∃ q, nameToIdx Q g = some q ∧
             (nodeQuery (fileParams f lk Q rp) p x)[j]? = x[q]? ∧ q < x.length)) := by
-  have hwf := Bridge.wfb_of_validate hv hN d hnode
-  have hT := Bridge.treeWF_of_WF (Bridge.WF_of_validate hv hN d)
+  have hwf := Bridge.wfb_of_validate hv d
+  have hT := Bridge.treeWF_of_WF (RawTree.WF.of_validate hv d)
   have hrun : runTree f.tree cfg = .ok f.tree := by simp [runTree, hdrop, hflat]
   have hnr := noRaiseAll_fileParams f lk Q rp hv hN hsub hA
   refine ⟨pipeline_recompute f.tree f.tree cfg (fileParams f lk Q rp) ids cells order hwf hrun
@@ -176,8 +176,8 @@ example (out0 : StageOut)
     ExE2E.subsetsOK (by decide) rfl (by decide) (by decide) (by decide) (by decide) _
     (mapPipeline_plain_ok Ex.f0.tree { chunkSize := 1, nProc := 2 }
       (electionVote (fileParams Ex.f0 ExE2E.lk ExE2E.Q ExE2E.rp)) [7, 3] [[3, 1, 2], [1, 3, 4]]
-      [1, 0] rfl rfl (Bridge.wfb_of_validate (by rfl) (by decide)
-        (RawTree.dictOK_of_b (by decide)) (by intro l0 h; cases h; decide))
+      [1, 0] rfl rfl (Bridge.wfb_of_validate (by rfl)
+        (RawTree.dictOK_of_b (by decide)))
       (electionVote_ok _ _ (fun _ _ V => stableTie_valid V)).1 rfl (by decide) (by decide)
       (by decide) (by decide))
 
